@@ -135,6 +135,21 @@ INPUTS: dict[str, tuple[dict[str, str], str]] = {
         },
         "pk",
     ),
+    "T14-alias-defined-in-package-init-and-submodule": (
+        {
+            "pk/__init__.py": "class Config:\n    a: int = 1\n\n\nAlias = Config\n\n\nclass Sub(Alias):\n    pass\n",
+            "pk/sub.py": "class Config:\n    c: int = 3\n\n\nAlias = Config\n\n\nclass SubSub(Alias):\n    pass\n",
+            "pk/other.py": "def o() -> int:\n    return 1\n",
+        },
+        "pk",
+    ),
+    "T15-same-class-name-nested-and-top-level": (
+        {
+            "pk/__init__.py": "",
+            "pk/a.py": "def f(x: 'list[Foo, int]') -> None:\n    ...\n\n\nclass Foo:\n    pass\n\n\nclass Outer:\n    class Foo:\n        pass\n\n\nclass Third:\n    class Foo:\n        pass\n\n\nu = Foo()\nv = Outer.Foo()\nw = Third.Foo()\n",
+        },
+        "pk",
+    ),
     "T9-directory-order": (
         {
             "pk/__init__.py": "from .zz.b import Bz\nfrom .aa.a import Az\n",
